@@ -22,6 +22,25 @@ def load_corpus():
         for node in tree.body:
             if isinstance(node, ast.Assign) and node.targets[0].id == 'MUTANTS':
                 out.update(ast.literal_eval(node.value))
+    # seeded defects written by independent sub-agents: seeded/<name>/patch.diff + meta.json
+    sd = os.path.join(ROOT, 'seeded')
+    if os.path.isdir(sd):
+        for d in sorted(os.listdir(sd)):
+            pf = os.path.join(sd, d, 'patch.diff')
+            if os.path.exists(pf):
+                meta = json.load(open(os.path.join(sd, d, 'meta.json'))) if os.path.exists(os.path.join(sd, d, 'meta.json')) else {}
+                out['S_' + d] = ('@patch', open(pf).read(), '', meta.get('property', d[:3]))
+    # every "fix:" commit of /repo reverted: the violation must come back as a VIOLATION
+    try:
+        log = subprocess.run(['git', '-C', '/repo', 'log', '--format=%h %s', '--grep', '^fix:'], capture_output=True, text=True).stdout
+        fk = open(os.path.join(ROOT, 'known_findings.txt')).read()
+        for line in log.splitlines():
+            h = line.split()[0]
+            m = re.search(r'fixed: property=(C\d\d) ' + h, fk)
+            diff = subprocess.run(['git', '-C', '/repo', 'show', '--format=', h, '--', 'kingdon'], capture_output=True, text=True).stdout
+            out['R_' + h] = ('@patch', diff, '-R', (m.group(1) if m else '?') + ' revert ' + line[8:60])
+    except Exception:
+        pass
     extra = os.path.join(ROOT, 'tools', 'mutants_extra.json')
     if os.path.exists(extra):
         for k, v in json.load(open(extra)).items():
@@ -31,15 +50,21 @@ def load_corpus():
 
 def run_one(name, spec, props, tier, jobs):
     path, old, new, prop = spec
-    base = os.path.join(tempfile.gettempdir(), 'kvmut', name)
+    base = os.path.join(tempfile.gettempdir(), 'kvmut', name.replace('/', '_'))
     shutil.rmtree(base, ignore_errors=True)
     os.makedirs(base)
     try:
         shutil.copytree('/repo/kingdon', base + '/kingdon')
-        s = open(f'{base}/{path}').read()
-        if s.count(old) != 1:
-            return name, prop, {p: 'PATCH-FAIL' for p in props}
-        open(f'{base}/{path}', 'w').write(s.replace(old, new))
+        if path == '@patch':
+            # `old` is a unified diff (text), `new` is '' or '-R'
+            r = subprocess.run(['patch', '-p1', '-s', '-d', base] + ([new] if new else []), input=old, text=True, capture_output=True)
+            if r.returncode != 0:
+                return name, prop, {p: 'PATCH-FAIL ' + (r.stdout + r.stderr)[-200:] for p in props}
+        else:
+            s = open(f'{base}/{path}').read()
+            if s.count(old) != 1:
+                return name, prop, {p: 'PATCH-FAIL' for p in props}
+            open(f'{base}/{path}', 'w').write(s.replace(old, new))
         res = {}
         for p in props:
             env = dict(os.environ, KV_REPO=base, KV_EVIDENCE_DIR=base + '/evidence', KV_REPLAY_DIR=base + '/replays')
